@@ -67,6 +67,25 @@ CHECKS = {
                      'oracle: exact file set, bytes, mtime_ns, returned paths',
                 note='a symlink argument is recorded under its resolved path (code behaviour); tmpfs scratch',
                 technique='exhaustive bounded enumeration of inputs and configurations'),
+    'C04': dict(cat='fault_enumeration', ref='2/C04', engine='E3',
+                text='every bit flip, truncation length, extension, pairwise swap, replay under another name and deletion of every chunk '
+                     'and snapshot object of three repositories (unencrypted, AES-GCM, ChaCha20), pairs of damages, each followed by a '
+                     'restore that must raise or reproduce the original tree; also with one long-lived Repository and with a retry '
+                     'sharing the snapshot cache of the failed attempt',
+                note='objects of a few hundred bytes; adversary without keys; removed snapshot object == deleted snapshot',
+                technique='exhaustive corruption enumeration'),
+    'C05': dict(cat='exploration', ref='2/C05', engine='E3',
+                text='every cipher x key size x hash setting x {fresh, long-lived Repository} over an init/add-key/snapshot/delete/clean '
+                     'history with real randomness: every payload ever written, every name, key file and stdout searched for 8-byte '
+                     'windows of every secret (raw/hex/base64); independent reader checks names are keyed MACs, blobs are '
+                     'nonce+ciphertext+tag and no (key, nonce) pair repeats',
+                note='bounded taint search, not a cryptographic proof', technique='exhaustive configuration enumeration with taint search'),
+    'C14': dict(cat='exploration', ref='2/C14', engine='E3+E1',
+                text='replicat writes / independent reader decodes (trees x every cipher x hash, chunkers, KDFs, both backend kinds, all '
+                     'completion orders of a snapshot with repeated chunks); independent writer emits (current and pre-1.3 metadata, '
+                     'shuffled chunk entries, empty files) / replicat restores',
+                note='reference reader/writer written from the documented scheme, import nothing from replicat',
+                technique='exhaustive configuration enumeration against an independent format implementation'),
 }
 NOT_YET = {}
 
@@ -105,8 +124,9 @@ m = {
          'kind_free_text': 'deterministic scheduler for real threads + virtual asyncio loop; deviation-bounded stateless explorer'},
         {'name': 'E2', 'path': 'mc/hist.py', 'serves_properties': ['C02', 'C06', 'C07', 'C08'],
          'kind_free_text': 'explicit-state BFS over command histories; transitions run the real commands with fresh Repository objects'},
+        {'name': 'E3+E1', 'path': 'checks/C14.py', 'serves_properties': ['C14'], 'kind_free_text': 'product enumeration + completion-order exploration'},
         {'name': 'E2+E1', 'path': 'mc/hist.py + mc/explore.py', 'serves_properties': ['C02'], 'kind_free_text': 'both'},
-        {'name': 'E3', 'path': 'mc/common.py (pmap) + per-check menus', 'serves_properties': ['C01', 'C10', 'C11'],
+        {'name': 'E3', 'path': 'mc/common.py (pmap) + per-check menus', 'serves_properties': ['C01', 'C04', 'C05', 'C10', 'C11', 'C14'],
          'kind_free_text': 'complete product enumeration of small menus, sharded over 16 processes'},
     ],
     'checks': checks,
